@@ -303,6 +303,12 @@ def run_android(chk, model):
 GLOB_TOKENS = ["*", "**", "/", "/", "a", "b", "foo", ".", "-", "x*", "*y", "**/", "/**", "é", "$", "("]
 
 
+# literal components with regex metacharacters -> a near miss that the unescaped text,
+# read as a regular expression, would accept
+META_SEGS = {"values-b+sr+Latn": "values-bbsr+Latn", "c++": "c", "app (copy)": "app copy", "a.b": "axb",
+             "x[1]": "x1", "p?q": "q", "w|z": "w", "e^f": "ef", "{2}": "2"}
+
+
 def glob_case(rng):
     """segments of a glob + a path made by filling it"""
     segs, fill = [], []
@@ -316,7 +322,7 @@ def glob_case(rng):
             segs.append(pre + "*" + suf)
             fill.append([pre + rng.choice(["", "q", "a.b", "é"]) + suf])
         else:
-            s = rng.choice(["a", "b", "foo", "f.ftl", "x-y", "$", "(a)"])
+            s = rng.choice(["a", "b", "foo", "f.ftl", "x-y", "$", "(a)"] + list(META_SEGS))
             segs.append(s)
             fill.append([s])
     return segs, fill
@@ -342,6 +348,17 @@ def run_mozpath(chk, model):
             cases.append((path + "/sub/f", pat, True, "descendant"))
         if not has_ss and len(parts) > 1:
             cases.append(("/".join(parts[:-1]), pat, False, "ancestor"))
+        metas = [j for j, sg in enumerate(segs) if sg in META_SEGS]
+        if metas and not any(a == "**" and b == "**" for a, b in zip(segs, segs[1:])):
+            j = rng.choice(metas)
+            k = sum(len(f) for f in fill[:j])
+            near = parts[:k] + [META_SEGS[segs[j]]] + parts[k + 1:]
+            if segs[j] not in near:
+                # the literal component must be there verbatim
+                cases.append(("/".join(near), pat, False, "meta-near-miss"))
+            if segs[j] == "a.b" and not has_ss:
+                cases.append(("/".join(parts[:k] + ["a", "b"] + parts[k + 1:]), pat, False, "meta-near-miss"))
+            chk.hist("mozpath_meta", segs[j])
         if "*" not in segs[-1] and not has_ss:
             # the last component must match whole: foo/b does not match foo/bar
             cases.append((path + "x", pat, False, "extended-last"))
@@ -355,7 +372,15 @@ def run_mozpath(chk, model):
               ("foo", "", True, "doc"), ("foo\n", "foo", None, "newline")]
     impl, reqs, gpats = [], [], []
     for path, pat, want, kind in cases:
-        got = mozpath.match(path, pat)
+        try:
+            got = mozpath.match(path, pat)
+        except Exception as e:  # noqa
+            chk.count(("mozpath", path, pat))
+            impl.append([2, canon(type(e).__name__)])
+            reqs.append((8, [canon(path), canon(pat)]))
+            if want is not None:
+                chk.fail("mozpath-match-raised", {"path": path, "pattern": pat, "kind": kind}, repr(e))
+            continue
         chk.count(("mozpath", path, pat))
         chk.hist("mozpath", kind + ("+" if got else "-"))
         impl.append([0, int(got)])
@@ -371,12 +396,12 @@ def run_mozpath(chk, model):
         chk.correspond("MOZPATH", [c[:2] for c in cases], impl, outs)
         gi = []
         for pat in gpats:
-            mozpath.match("x", pat)
             try:
+                mozpath.match("x", pat)
                 ast, _ = ml.rx2coq.parse(mozpath.re_cache[pat].pattern, 0)
                 gi.append([0, ml.rx2coq.to_sx(ast)])
-            except ml.rx2coq.Unsupported as e:
-                gi.append([2, canon(str(e))])
+            except Exception as e:  # noqa
+                gi.append([2, canon(type(e).__name__)])
         outs = model.call([(9, [canon(p)]) for p in gpats])
         chk.correspond("GLOB-REGEX", gpats, gi, outs)
 
